@@ -148,6 +148,15 @@ def next {α : Type} (j : JIt α) : JIt α × Bool :=
     | some v :: r => ({ j with toks := r, done := false, val := v, err := false }, true)
     | none :: r => ({ j with toks := r, done := true, val := j.zero, err := true }, true)
 def close {α : Type} (j : JIt α) : JIt α := { j with done := true }
+
+/-- `ReadAllResults` over a JSONIter: the loop `for iter.Next() { if res.Err != nil { return nil, error at i } … }`
+(no Close). Result: `.inl vs` = all values, no error; `.inr i` = error reported for result number `i`. -/
+def readAllResults {α : Type} : Nat → JIt α → Nat → List α → List α ⊕ Nat
+  | 0, _, _, acc => .inl acc.reverse
+  | fuel + 1, j, i, acc =>
+    let r := j.next
+    if r.2 then (if r.1.err then .inr i else readAllResults fuel r.1 (i + 1) (r.1.val :: acc))
+    else .inl acc.reverse
 end JIt
 
 end C43
